@@ -44,6 +44,7 @@ import TonVerif.Proofs.BocSemFinal
 import TonVerif.Model.Builder
 import TonVerif.Model.BocEntry
 import TonVerif.Proofs.BocRoundTrip
+import TonVerif.Proofs.SrcBocDeser
 
 namespace TonVerif.Properties.C03
 open TonVerif TonVerif.Model TonVerif.Model.BocForms TonVerif.Spec.Boc TonVerif.Proofs.BocEmit TonVerif.Proofs.BocForms
@@ -294,5 +295,26 @@ example : ∃ p bs, Cell.build id dagTree = some p ∧ p.toBoc 50 ⟨true, true,
   simpa [kOrdinary] using this
 
 example : Bytes.WF [0xb5, 0xee, 0x9c, 0x72, 0x01, 0x02] := by decide
+
+/-! ## the parser half of the round trip on the working tree's own parser (regenerated from the source on every run) -/
+
+/-- SOURCE TIE of the parser half: `Generated.BocCells.deserialize` is regenerated on every run from `Boc.deserialize`,
+`Boc.deserialize_cell` and `Boc.deserialize_boc_header` (pytoniq_core/boc/deserialize.py; C05: `c05_src_deserialize`) and is
+equal, for every byte list, to the hand model `BocParse.fromBoc H` that `c03_roundtrip` is stated with (the cell constructor
+= Model/Cell.lean stays the hand model of C01 / C02; `liftMk` = it raises on a `None` child). -/
+theorem c03_src_parser (H : Bytes → Bytes) (bs : Bytes) :
+    Generated.BocCells.deserialize bs (Generated.BocCells.liftMk (BocParse.mkCell H)) = (BocParse.fromBoc H bs).map (·.map some) :=
+  TonVerif.Proofs.SrcBocDeser.src_deserialize_eq (BocParse.mkCell H) bs
+
+/-- hence THE ROUND TRIP through the regenerated parser: under the hypotheses of `c03_roundtrip`, the bytes the emitter model
+returns are parsed by the regenerated `Boc.deserialize` (with the constructor model) to exactly the one root `(t, p.info)`. -/
+theorem c03_roundtrip_src (H : Bytes → Bytes) (t : Cell) (wf : TreeWF H t) (ty : Typed t) (p : PCell)
+    (hb : Cell.build H t = some p) (nc : NoCollision p) (fuel : Nat) (ord : List PCell) (h : p.order fuel = some ord)
+    (o : Opts) (hv : o.valid = true) (hn : ord.length < 2 ^ 32)
+    (hP : (payloadOf (sizeW (orderRecs ord)) (orderRecs ord)).length * 2 < 2 ^ 64) :
+    ∃ bs, p.toBoc fuel o = some bs ∧
+      Generated.BocCells.deserialize bs (Generated.BocCells.liftMk (BocParse.mkCell H)) = some [some (t, p.info)] := by
+  obtain ⟨bs, h1, h2, _⟩ := c03_roundtrip H t wf ty p hb nc fuel ord h o hv hn hP
+  exact ⟨bs, h1, by rw [c03_src_parser, h2]; rfl⟩
 
 end TonVerif.Properties.C03
